@@ -7,7 +7,7 @@ import numpy as np
 import pandas as pd
 from typing_extensions import deprecated
 
-from swcgeom.core.swc_utils.base import SWCNames, Topology, get_dsu, get_names, traverse
+from swcgeom.core.swc_utils.base import SWCNames, Topology, get_dsu, get_names
 from swcgeom.utils import DisjointSetUnion
 
 __all__ = [
@@ -50,17 +50,9 @@ def is_sorted(topology: Topology) -> bool:
     In a sorted topology, parent samples should appear before any child
     samples.
     """
-    flag = True
-
-    def enter(idx: int, parent: int | None) -> int:
-        nonlocal flag
-        if parent is not None and idx < parent:
-            flag = False
-
-        return idx
-
-    traverse(topology=topology, enter=enter)
-    return flag
+    ids, pids = np.asarray(topology[0]), np.asarray(topology[1])
+    has_parent = pids != -1  # every row but the roots, whichever tree it is in
+    return bool(np.all(pids[has_parent] < ids[has_parent]))
 
 
 def has_cyclic(topology: Topology) -> bool:
